@@ -129,8 +129,7 @@ class Ctx:
             workers = NCPU
         meta = os.path.join(self.scratch, 'meta-' + tag)
         cmd = ['java']
-        if heap:
-            cmd.append('-Xmx' + heap)
+        cmd.append('-Xmx' + (heap or '8g'))
         cmd += ['-XX:+UseParallelGC', '-Xss512m']
         if dfs:
             cmd.append('-Dtlc2.tool.queue.IStateQueue=StateDeque')
@@ -252,13 +251,25 @@ class Ctx:
 
     # ---------------------------------------------------------------- Go harness
     def go_build(self, cmdname, race=False, tags='verif'):
-        """Build harness/cmd/<cmdname> against /repo's working tree with the hook tag on."""
-        outdir = os.path.join(ROOT, 'build', 'bin')
+        """Build harness/cmd/<cmdname> against the repository working tree with the hook tag on.
+        The tree is /repo unless VERIF_REPO names another checkout (used to try seeded changes in a scratch
+        worktree without touching /repo): then an alternative go.mod with `replace => $VERIF_REPO` is used."""
+        repo = os.environ.get('VERIF_REPO', '/repo')
+        sub = 'bin' if repo == '/repo' else 'bin-' + re.sub(r'[^A-Za-z0-9]+', '_', repo).strip('_')
+        outdir = os.path.join(ROOT, 'build', sub)
         os.makedirs(outdir, exist_ok=True)
         out = os.path.join(outdir, cmdname + ('-race' if race else ''))
         if not os.path.exists(os.path.join(ROOT, 'build', 'stubflux', 'libflux.a')):
             subprocess.run([os.path.join(ROOT, 'stubflux', 'build.sh')], check=True, env=go_env(), stdout=subprocess.DEVNULL)
         cmd = ['go', 'build', '-tags', tags]
+        if repo != '/repo':
+            alt = os.path.join(outdir, 'alt.mod')
+            with open(os.path.join(ROOT, 'harness', 'go.mod')) as f:
+                mod = f.read().replace('=> /repo', '=> ' + repo)
+            with open(alt, 'w') as f:
+                f.write(mod)
+            shutil.copy(os.path.join(ROOT, 'harness', 'go.sum'), os.path.join(outdir, 'alt.sum'))
+            cmd += ['-modfile', alt]
         if race:
             cmd.append('-race')
         cmd += ['-o', out, './cmd/' + cmdname]
@@ -267,7 +278,7 @@ class Ctx:
                            stderr=subprocess.STDOUT, text=True)
         if p.returncode != 0:
             raise Inconclusive(f'go build {cmdname} failed:\n{p.stdout[-4000:]}')
-        log(f'built {cmdname} in {time.time()-t0:.1f}s')
+        log(f'built {cmdname} against {repo} in {time.time()-t0:.1f}s')
         return out
 
     def replay(self, binary, cases, *, procs=None, par=1, args=None, timeout=1200, case_timeout='120s', env_extra=None):
@@ -470,12 +481,16 @@ class Ctx:
 
 
 def load_known_findings():
-    p = os.path.join(ROOT, 'known_findings.json')
-    if not os.path.exists(p):
-        return []
-    with open(p) as f:
-        data = json.load(f)
-    return data.get('findings', [])
+    """known_findings.json plus fragments known_findings.d/*.json (same format), all committed, never written at run time."""
+    out = []
+    paths = [os.path.join(ROOT, 'known_findings.json')] + sorted(glob.glob(os.path.join(ROOT, 'known_findings.d', '*.json')))
+    for p in paths:
+        if not os.path.exists(p):
+            continue
+        with open(p) as f:
+            data = json.load(f)
+        out += data.get('findings', [])
+    return out
 
 
 def sample_list(rng, xs, k):
